@@ -234,7 +234,7 @@ func (e *Env) pgSpaces(thorough bool) []*Space {
 		}),
 	}
 	bodyA := alphabet{Name: "pg-body", Tok: [][]byte{{0}, {'a'}, {'$', '1'}, {0, 0}, {0, 1}, {0, 2}, {0xFF, 0xFF}, {0, 0, 0, 0}, {0, 0, 0, 1}, {0, 0, 0, 4}, {0xFF, 0xFF, 0xFF, 0xFF}, {0x7F, 0xFF, 0xFF, 0xFF}, {0x80, 0, 0, 0}, {1}, {0xFF}}}
-	l := 5
+	l := 4
 	if thorough {
 		l = 6
 	}
@@ -403,7 +403,7 @@ func (e *Env) pgSpaces(thorough bool) []*Space {
 	dbExtended := e.dec("postgresql.PgProxy.ProxyDatabaseConnection[extended query]", sess(func(in []byte) []step {
 		return []step{{true, startup}, {false, authOk}, {false, readyForQuery}, {true, extended.buf}, {false, in}}
 	}))
-	l = 3
+	l = 2 // a session costs about a millisecond; quick runs pairs of packets, thorough 4
 	if thorough {
 		l = 4
 	}
